@@ -24,12 +24,23 @@ Proof.
       * apply H. lia.
 Qed.
 
+Lemma wide_cands_In : forall s n mbf e, NoDup (paths (nodes s)) ->
+  (In e (prefix_cands s n mbf) <-> exists p, hit_at s mbf p = Some e /\ is_prefix n p = true).
+Proof.
+  intros s n mbf e Nd. unfold prefix_cands. rewrite in_flat_map. split.
+  - intros [nd [H1 H2]]. destruct (node_hit s mbf nd) as [x|] eqn:Hh; [|destruct H2].
+    destruct (is_prefix n (n_path nd)) eqn:C; [|destruct H2]. destruct H2 as [->|[]].
+    exists (n_path nd). unfold hit_at. rewrite (In_get_node _ _ Nd H1). tauto.
+  - intros [p [H1 H2]]. unfold hit_at in H1. destruct (get_node (nodes s) p) as [nd|] eqn:G; [|discriminate].
+    exists nd. split; [eapply get_node_In; exact G|]. rewrite H1, (get_node_path _ _ _ G), H2. left. reflexivity.
+Qed.
+
 Lemma prefix_cands_In : forall s n mbf e, NoDup (paths (nodes s)) ->
-  (In e (prefix_cands s n mbf) <->
+  (In e (dfs_cands s n mbf) <->
    exists p, hit_at s mbf p = Some e /\ is_prefix n p = true /\
              forall k, (length n <= k < length p)%nat -> hit_at s mbf (firstn k p) = None).
 Proof.
-  intros s n mbf e Nd. unfold prefix_cands. rewrite in_flat_map. split.
+  intros s n mbf e Nd. unfold dfs_cands. rewrite in_flat_map. split.
   - intros [nd [H1 H2]]. destruct (node_hit s mbf nd) as [x|] eqn:Hh; [|destruct H2].
     destruct (is_prefix n (n_path nd) && negb (blocked s mbf (length n) (length (n_path nd) - length n) (n_path nd))) eqn:C; [|destruct H2].
     destruct H2 as [->|[]]. apply andb_true_iff in C. destruct C as [C1 C2]. apply negb_true_iff in C2.
@@ -133,14 +144,15 @@ Qed.
 
 (* cs_tree_flat_equiv *)
 Theorem tree_flat_equiv : forall s n mbf ord, cs_inv s -> (forall l x, In x (ord l) <-> In x l) -> In n (paths (nodes s)) ->
-  (forall fuel e, dfs ord s mbf fuel n = Some e -> In e (prefix_cands s n mbf)) /\
+  (forall fuel e, dfs ord s mbf fuel n = Some e -> In e (dfs_cands s n mbf) /\ In e (prefix_cands s n mbf)) /\
   (dfs ord s mbf (depth_of s) n = None -> prefix_cands s n mbf = []).
 Proof.
   intros s n mbf ord I Hord Hn. pose proof (ci_tree s I) as [R Nd Cl]. split.
-  - intros fuel e H. apply (prefix_cands_In s n mbf e Nd). apply (dfs_sound ord s mbf fuel n e); [intros l x; apply Hord|exact H].
+  - intros fuel e H. destruct (dfs_sound ord s mbf fuel n e (fun l x => proj1 (Hord l x)) H) as [q [Q1 [Q2 Q3]]].
+    split; [apply (prefix_cands_In s n mbf e Nd); exists q; tauto|apply (wide_cands_In s n mbf e Nd); exists q; tauto].
   - intro H. destruct (prefix_cands s n mbf) as [|e t] eqn:Ec; [reflexivity|]. exfalso.
     assert (He : In e (prefix_cands s n mbf)) by (rewrite Ec; left; reflexivity).
-    apply (prefix_cands_In s n mbf e Nd) in He. destruct He as [q [Q1 [Q2 _]]].
+    apply (wide_cands_In s n mbf e Nd) in He. destruct He as [q [Q1 Q2]].
     assert (Hq : In q (paths (nodes s))).
     { unfold hit_at in Q1. destruct (get_node (nodes s) q) eqn:G; [|discriminate]. apply has_node_In. unfold has_node. rewrite G. reflexivity. }
     pose proof (depth_bound s q Hq) as Lq.
